@@ -29,6 +29,7 @@ def make_config(prop, seed, tier):
         # several store objects on one directory = several server processes
         # taking turns (no overlap): their in-memory caches go stale
         "handles": r.choice([2, 2, 3]) if prop == "C06" else r.choice([1, 1, 2, 3]),
+        "sim_mtime": r.random() < 0.5,
     }
 
 
@@ -192,6 +193,11 @@ class StoreRun:
         FS.listing_rng = _r.Random(H("listing", self.cfg["seed"]))
         self.path = os.path.join(self.arena.path, "st")
         try:
+            if self.cfg.get("sim_mtime"):
+                from ..simclock import CLOCK
+
+                CLOCK.reset()
+                FS.mtime_source = CLOCK.time_ns
             self.st = new_store(self.cfg["backend"], self.path)
             self.handles = [self.st]
             if self.cfg["backend"] != "memory":
